@@ -13,11 +13,13 @@ hello `(id, connID)` has been sent and that have not been accepted yet (TCP
 accept order is arbitrary: any of them may be taken next), and the leader's
 network-info message in flight to each peer.
 
-One `step` is one atomic action.  The Go code performs `need[connID]--` (under
-`Network.m`, followed by `Broadcast`) and the store `SetConn`/`addPeer` of the
-same accepted connection as two separate critical sections; they are the two
-steps `accDec` and `accStore`.  The event `accept` is the two executed without
-interruption; the atomic system (`Ev.atomic`) uses only that one.
+One `step` is one atomic action.  `acceptConn` (after the repair b60eeb5) is
+three critical sections of the single accept goroutine of a party: check
+`need[connID] > 0` (`accTake`), store the connection with `SetConn`/`addPeer`
+(`accStore`), then `need[connID]--; Broadcast` (`accDec`).  The events
+`oldDec`/`oldStore` are the ordering BEFORE the repair (decrement and signal
+first, store afterwards); they are not events of the code as it is and are
+kept only to state what the repair removed (Props/C19.lean, `C19_old_order_*`).
 
 Abstractions (sound for the setup phase; stated as assumptions of C19):
 * addresses are the party ids (every party keeps one address, so the
@@ -63,6 +65,16 @@ inductive Phase where
   | done
 deriving Repr, DecidableEq
 
+/-- What the accept goroutine of a party holds between two critical sections
+of `acceptConn`. -/
+inductive Infl where
+  | none
+  /-- hello `(id, k)` read, `need[k] > 0` checked, connection not stored yet -/
+  | taken (i k : Nat)
+  /-- connection stored, `need[k]--` still to come -/
+  | stored (i k : Nat)
+deriving Repr, DecidableEq
+
 def upd {α : Type} (f : Nat → α) (a : Nat) (v : α) : Nat → α :=
   fun x => if x = a then v else f x
 
@@ -84,8 +96,8 @@ structure State where
   conn  : Nat → Nat → Nat → Option Conn
   /-- accept goroutine of p running -/
   acc   : Nat → Bool
-  /-- accept goroutine of p is between `need[k]--` and the store of `(id, k)` -/
-  infl  : Nat → Option (Nat × Nat)
+  /-- where the accept goroutine of p stands inside `acceptConn` -/
+  infl  : Nat → Infl
   /-- `pend j i k`: hello `(i, k)` sent to listener j, not yet accepted -/
   pend  : Nat → Nat → Nat → Bool
   /-- network info (peer ids) sent by the leader, not yet read by p -/
@@ -102,7 +114,7 @@ def init (c : Cfg) : State where
   np := fun p => if p = 0 then c.n else 0
   conn := fun _ _ _ => none
   acc := fun _ => false
-  infl := fun _ => none
+  infl := fun _ => .none
   pend := fun _ _ _ => false
   mail := fun _ => none
   bad := false
@@ -136,12 +148,12 @@ inductive Ev where
   | lconnect
   /-- peer i: `connectPeerToLeader` sends magic, id, address on connection 0 -/
   | hello (i : Nat)
-  /-- accept goroutine of j: `Accept` + `acceptConn` up to `need[k]--; Broadcast` -/
-  | accDec (j i k : Nat)
+  /-- accept goroutine of j: `Accept`, read the hello `(i, k)`, check `need[k] > 0` -/
+  | accTake (j i k : Nat)
   /-- accept goroutine of j: `peer.SetConn(k, conn); nw.addPeer(peer)` -/
   | accStore (j : Nat)
-  /-- `accDec` and `accStore` without interruption -/
-  | accept (j i k : Nat)
+  /-- accept goroutine of j: `need[k]--; Broadcast` -/
+  | accDec (j : Nat)
   /-- party p: the wait loop `for nw.need[k] > 0` ends -/
   | waitDone (p : Nat)
   /-- leader: sends the network info to the next peer -/
@@ -150,38 +162,56 @@ inductive Ev where
   | recvInfo (i : Nat)
   /-- party i: `dial` of the next peer of `connect(k)` -/
   | dial (i : Nat)
+  /-- ordering before the repair: `need[k]--; Broadcast` directly after the check -/
+  | oldDec (j i k : Nat)
+  /-- ordering before the repair: the store after the signal -/
+  | oldStore (j : Nat)
 deriving Repr, DecidableEq
 
-def stepAccDec (c : Cfg) (s : State) (j i k : Nat) : Option State :=
-  if s.acc j = true ∧ s.infl j = none ∧ s.pend j i k = true then
+/-- `Accept` + hello + the check of `need[k]`; `dec`: also decrement (old ordering). -/
+def stepAccTake (c : Cfg) (s : State) (j i k : Nat) (dec : Bool) : Option State :=
+  if s.acc j = true ∧ s.infl j = .none ∧ s.pend j i k = true then
     if k < c.m ∧ 0 < s.need j k then
       some { s with pend := upd3 s.pend j i k false,
-                    need := upd2 s.need j k (s.need j k - 1),
-                    infl := upd s.infl j (some (i, k)) }
+                    need := if dec then upd2 s.need j k (s.need j k - 1) else s.need,
+                    infl := upd s.infl j (.taken i k) }
     else
       -- "invalid connection ID" / "too many connections": accept loop ends
       some { s with pend := upd3 s.pend j i k false, acc := upd s.acc j false, bad := true }
   else none
 
-def stepAccStore (s : State) (j : Nat) : Option State :=
+/-- `peer.SetConn(k, conn); nw.addPeer(peer)` for the connection the accept
+goroutine of j holds; afterwards the goroutine is in state `next`. -/
+def stepAccStore (s : State) (j : Nat) (next : Nat → Nat → Infl) : Option State :=
   match s.infl j with
-  | none => none
-  | some (i, k) =>
+  | .taken i k =>
     if s.np j ≤ i then
       -- addPeer: "invalid peer ID"
-      some { s with infl := upd s.infl j none, acc := upd s.acc j false, bad := true }
+      some { s with infl := upd s.infl j .none, acc := upd s.acc j false, bad := true }
     else if i ∈ s.known j then
       match s.conn j i k with
-      | none => some { s with infl := upd s.infl j none, conn := upd3 s.conn j i k (some ⟨i, j, k⟩) }
+      | none => some { s with infl := upd s.infl j (next i k), conn := upd3 s.conn j i k (some ⟨i, j, k⟩) }
       | some _ =>
         -- SetConn: "connection already set"
-        some { s with infl := upd s.infl j none, acc := upd s.acc j false, bad := true }
+        some { s with infl := upd s.infl j .none, acc := upd s.acc j false, bad := true }
     else
       -- a new Peer struct holding only this connection
-      some { s with infl := upd s.infl j none,
+      some { s with infl := upd s.infl j (next i k),
                     known := upd s.known j (ins i (s.known j)),
                     conn := fun p q k' =>
                       if p = j ∧ q = i then (if k' = k then some ⟨i, j, k⟩ else none) else s.conn p q k' }
+  | _ => none
+
+/-- `need[k]--; Broadcast`. -/
+def stepAccDec (s : State) (j : Nat) : Option State :=
+  match s.infl j with
+  | .stored _ k =>
+    if 0 < s.need j k then
+      some { s with need := upd2 s.need j k (s.need j k - 1), infl := upd s.infl j .none }
+    else
+      -- the counter would go negative
+      some { s with infl := upd s.infl j .none, bad := true }
+  | _ => none
 
 def step (c : Cfg) (s : State) : Ev → Option State
   | .join i =>
@@ -205,9 +235,11 @@ def step (c : Cfg) (s : State) : Ev → Option State
     match s.phase i with
     | .joined => some { s with phase := upd s.phase i .hello, pend := upd3 s.pend 0 i 0 true }
     | _ => none
-  | .accDec j i k => stepAccDec c s j i k
-  | .accStore j => stepAccStore s j
-  | .accept j i k => (stepAccDec c s j i k).bind fun s' => stepAccStore s' j
+  | .accTake j i k => stepAccTake c s j i k false
+  | .accStore j => stepAccStore s j .stored
+  | .accDec j => stepAccDec s j
+  | .oldDec j i k => stepAccTake c s j i k true
+  | .oldStore j => stepAccStore s j (fun _ _ => .none)
   | .waitDone p =>
     match s.phase p with
     | .run k [] =>
@@ -259,16 +291,17 @@ def step (c : Cfg) (s : State) : Ev → Option State
                         phase := upd s.phase i (.run k rest) }
     | _ => none
 
-/-- Events of the code as it is (accept in two steps). -/
-def Ev.faithful : Ev → Bool
-  | .accept .. => false
+/-- Events of the code as it is. -/
+def Ev.real : Ev → Bool
+  | .oldDec .. => false
+  | .oldStore .. => false
   | _ => true
 
-/-- Events of the atomic system (accept goroutine not interrupted between
-`need[k]--` and the store). -/
-def Ev.atomic : Ev → Bool
-  | .accDec .. => false
+/-- Events of the code before the repair (decrement and signal before the store). -/
+def Ev.old : Ev → Bool
+  | .accTake .. => false
   | .accStore .. => false
+  | .accDec .. => false
   | _ => true
 
 /-- Run a list of events. -/
@@ -294,17 +327,17 @@ def tableComplete (c : Cfg) (s : State) (p : Nat) : Bool :=
 /-- Nothing in flight anywhere. -/
 def quiet (c : Cfg) (s : State) : Bool :=
   (List.range c.n).all fun j =>
-    s.infl j == none && s.mail j == none &&
+    s.infl j == .none && s.mail j == none &&
     (List.range c.n).all fun i => (List.range c.m).all fun k => s.pend j i k == false
 
 /-- All candidate events of a configuration (for enabledness search). -/
 def candidates (c : Cfg) : List Ev :=
   let ps := List.range c.n
   let ks := List.range c.m
-  [Ev.lconnect, Ev.info] ++ ps.map .join ++ ps.map .hello ++ ps.map .accStore ++ ps.map .waitDone ++
-    ps.map .recvInfo ++ ps.map .dial ++
-    ps.flatMap (fun j => ps.flatMap fun i => ks.map fun k => Ev.accDec j i k) ++
-    ps.flatMap (fun j => ps.flatMap fun i => ks.map fun k => Ev.accept j i k)
+  [Ev.lconnect, Ev.info] ++ ps.map .join ++ ps.map .hello ++ ps.map .accStore ++ ps.map .accDec ++
+    ps.map .oldStore ++ ps.map .waitDone ++ ps.map .recvInfo ++ ps.map .dial ++
+    ps.flatMap (fun j => ps.flatMap fun i => ks.map fun k => Ev.accTake j i k) ++
+    ps.flatMap (fun j => ps.flatMap fun i => ks.map fun k => Ev.oldDec j i k)
 
 def enabled (c : Cfg) (s : State) (f : Ev → Bool) : List Ev :=
   (candidates c).filter fun e => f e && (step c s e).isSome
